@@ -1,7 +1,7 @@
 (* Corr_builder.v — engine `builder`: BehaviourBuilder::protocol_prefix + build, and the protocol names
    the built node uses (Behaviour.protocol, ConnHandler::listen_protocol, the client handler's and the
    server handler's OutboundSubstreamRequest), against ProtocolName.v; C20 oracle. *)
-From BS Require Import Bytes ProtocolName.
+From BS Require Export Bytes ProtocolName.
 Open Scope N_scope.
 
 Inductive bin := BPrefix (s : bytes) | BNoPrefix.
